@@ -111,7 +111,9 @@ def api_scenario(rnd):
              ['has', ids(), [], None, None]]
     stack = rnd.sample(stack, rnd.randint(1, len(stack)))
     body = [['effect', rnd.choice(['out', 'err', 'sock'])]]
-    if kind == 'gen': body.append(['yield', ['var', 'x']])
+    if kind == 'gen':
+        body.append(['yield', ['var', 'x']])
+        if rnd.random() < .5: body += [['effect', rnd.choice(['out', 'err', 'sock'])], ['yield', ['var', 'x']]]
     if rnd.random() < .3: body.append(['if', ['bin', 'eq', ['var', 'x'], ['const', I(1)]], [['raise', scn.cls('ValueError'), 100]], []])
     body.append(['return', ['var', 'x']])
     driver, gv = [], 0
@@ -121,7 +123,12 @@ def api_scenario(rnd):
         else:
             x = rnd.randint(0, 3)
             if kind == 'gen':
-                driver += [['gennew', gv, 'f', [I(x)], []], ['next', gv], ['next', gv]]; gv += 1
+                if rnd.random() < .3: x = rnd.randint(101, 103)      # the precondition accepts: the generator gets going
+                steps = [['gennew', gv, 'f', [I(x)], []]] + [['next', gv]] * (sum(1 for s in body if s[0] == 'yield') + 1); gv += 1
+                if rnd.random() < .4:
+                    # the switch is operated while the generator is suspended (or between its creation and its first step)
+                    steps.insert(rnd.randint(1, len(steps) - 1), ['switch', rnd.choice(OPS)])
+                driver += steps
             else:
                 driver.append(['call', 'f', [I(x)], []])
     return {'funs': [{'name': 'f', 'kind': kind, 'sig': sig, 'stack': stack, 'body': body}], 'driver': driver}
@@ -151,6 +158,19 @@ def api_monitor(sc, obs):
             if not act.snap.startswith(want):
                 return f'after {op}: snapshot {act.snap!r}, expected enabled={enabled} removed={removed}'
             continue
+        if a[0] == 'next' and a[1] not in gens:
+            gens[a[1]] = enabled          # the wrapper reads the switch at the first step
+            if enabled: continue
+        if a[0] == 'next' and gens.get(a[1]) and not enabled:
+            # C07-F1: the wrapper of a generator that was created while contracts were enabled does not look at the switch again
+            sig = 'generator_resumed_while_disabled'
+            if act.validators() or any(e.startswith('K ') for e in act.effects()):
+                return (f'contracts are disabled but a generator created while they were enabled still evaluates validators / blocks effects on {a}: {act.validators()} {act.effects()}', sig)
+            if not act.snap.startswith('S 0'):
+                return (f'{a} on a generator created while contracts were enabled switched contracts back on: snapshot {act.snap!r}', sig)
+            continue
+        if a[0] == 'next' and gens.get(a[1]) is False and enabled:
+            continue      # created while disabled (the bare generator), resumed after enable: the bare generator goes on
         if not enabled:
             # inert: no validator evaluated, no stream replaced, behaves as the undecorated function
             if act.validators():
@@ -174,7 +194,8 @@ def api_part(ctx, fr, model_available):
         fr.evaluations += 1
         if any(a[0] == 'switch' for a in sc['driver']): fr.add_nontrivial(sc)
         v = api_monitor(sc, oi)
-        if v: fr.violations.append({'scenario': sc, 'impl': oi, 'what': v})
+        if isinstance(v, tuple): fr.violations.append({'scenario': sc, 'impl': oi, 'what': v[0], 'signature': v[1]})
+        elif v: fr.violations.append({'scenario': sc, 'impl': oi, 'what': v})
         if om is not None:
             fr.programs += 1; fr.traces_validated += 1
             if om != oi: fr.disagreements.append({'scenario': sc, 'impl': oi, 'model': om})
@@ -246,8 +267,14 @@ def check_disabled_inv():
         def __init__(self): self.x = 1
         def bad(self): self.x = -5; return "ran"
     a = A()
+    kept = a.bad          # a bound method handed out while contracts were enabled (a stored callback) ...
     deal.disable()
-    r = {"assign": None, "method": None}
+    r = {"assign": None, "method": None, "kept_method": None}
+    try:
+        r["kept_method"] = kept() == "ran"      # ... is inert too once contracts are disabled: the switch is read at the call
+    except BaseException as e:
+        r["kept_method"] = type(e).__name__
+    a.x = 1
     try:
         a.x = -1; r["assign"] = True
     except BaseException as e:
@@ -342,10 +369,45 @@ def check_decorated_while_disabled():
         raised(runner, deal.cases(k, count=3, check_types=False), "k", io.StringIO(), colors)
         out[f"enabled_after_{label}_run_cases"] = (state.debug is True) and raised(f, -1) == "PreContractError"
     return out
+
+def check_generator_across_switch():
+    # C07-F1: a contracted generator that got going while contracts were enabled, resumed after deal.disable()
+    from deal._state import state
+    seen = []
+    @deal.post(lambda r: seen.append(r) or True)
+    @deal.has()
+    def numbers():
+        yield 1
+        yield 2
+        yield 3
+    out = {}
+    it = numbers(); next(it)
+    n = len(seen)
+    deal.disable()
+    second = next(it)
+    out["no_validator_while_disabled"] = len(seen) == n
+    out["switch_still_off_after_step"] = state.debug is False
+    deal.disable()
+    it.close()
+    # the other direction is the documented one: created and started while disabled, the bare generator goes on after enable
+    it = numbers(); next(it); deal.enable(); n = len(seen); next(it)
+    out["bare_generator_goes_on"] = len(seen) == n and state.debug is True
+    return out
 '''
 
 
 def removal_part(ctx, fr):
+    res = impl.run_impl('pyexec.py', {'src': REMOVAL_SRC, 'calls': [['check_generator_across_switch', []]]})[0]
+    fr.evaluations += 1; fr.add_nontrivial({'removal': 'check_generator_across_switch'})
+    fr.samples.append({'family': 'removal', 'check': 'check_generator_across_switch', 'result': res})
+    known = {'no_validator_while_disabled', 'switch_still_off_after_step'}
+    bad = [k for k, v in (res.items() if isinstance(res, dict) else [('error', res)]) if v is not True]
+    if [k for k in bad if k in known]:
+        fr.violations.append({'scenario': {'family': 'removal', 'check': 'check_generator_across_switch'}, 'impl': res, 'signature': 'generator_resumed_while_disabled',
+                              'what': f'a generator that got going while contracts were enabled ignores deal.disable(): failing {[k for k in bad if k in known]} ({res})'})
+    if [k for k in bad if k not in known]:
+        fr.violations.append({'scenario': {'family': 'removal', 'check': 'check_generator_across_switch'}, 'impl': res,
+                              'what': f'generator across a switch: failing {[k for k in bad if k not in known]} ({res})'})
     for name, optimise in (('check', False), ('check_disabled_inv', False), ('check_decorated_while_disabled', False), ('check_decorated_while_disabled', True)):
         res = impl.run_impl('pyexec.py', {'src': REMOVAL_SRC, 'calls': [[name, []]]}, optimise=optimise)[0]
         fr.evaluations += 1; fr.add_nontrivial({'removal': name})
@@ -373,4 +435,7 @@ def search(ctx, fr, model_available=True):
 
 
 def classify(v, findings):
+    for f in findings:
+        if f.get('status') == 'open' and f.get('signature') and f['signature'] == v.get('signature'):
+            return f['id']
     return None
